@@ -75,7 +75,16 @@ SolidCases ==
     UNION {{Mk(op, ms, Normals[j], dn, Motions[1]) @@ [solid |-> 1] : dn \in Offsets(ms.vpos, Normals[j]), op \in {"section", "split"}}
            : ms \in {m \in Meshes : m.name \in {"lprism", "twoboxes"}}, j \in {2, 4}}
 
-Init == case \in Cases \cup SmallCases \cup SolidCases
+\* planes whose normal is exactly a NEGATIVE coordinate axis (sides swap with respect to the positive axis), and sections whose
+\* curves are moved afterwards instead of moving mesh and plane first (side = 1)
+NegAxis == << V3(0,0,-1), V3(-1,0,0), V3(0,-1,0) >>
+MoreCases ==
+    UNION {{Mk(op, ms, NegAxis[j], dn, Motions[t]) : dn \in Offsets(ms.vpos, NegAxis[j]), op \in {"section", "split"}}
+           : ms \in {m \in Meshes : m.name \in {"box", "tetra", "lprism"}}, j \in 1..3, t \in {1, 3}} \cup
+    UNION {{Mk("section", ms, Normals[j], dn, Motions[t]) @@ [side |-> 1] : dn \in Offsets(ms.vpos, Normals[j])}
+           : ms \in {m \in Meshes : m.name \in {"box", "tetra"}}, j \in {1, 4, 5}, t \in 2..4}
+
+Init == case \in Cases \cup SmallCases \cup SolidCases \cup MoreCases
 Next == UNCHANGED case
 Spec == Init /\ [][Next]_case
 Emit == PrintT(<<"CASE", ToJson(case)>>)
